@@ -11,15 +11,18 @@ From Coq Require Import Lia.
 
 (* follow on the head of an intact chain, with at least as much fuel as hops:
    it returns the object of the last ID, which is not a reference and is what L
-   maps that ID to (equal to the record L had before, up to the codec) *)
+   maps that ID to (equal to the record L had before, up to the codec). The key
+   it returns (Go's currentID, the value of the redirect cookie) is the last
+   key followed, last rest lk; started with lk = o_id ob that is the ID field
+   of the object reached (o_id ob' = last rest (o_id ob), by cache_ok). *)
 Theorem C05_chain_follow :
-  forall rest fuel s o ob,
+  forall rest fuel s o ob lk,
     length rest <= fuel ->
     plan s = [] -> cache_ok s -> NoDup (map fst (cache s)) ->
     (forall k, In k rest -> k <> KGen (supply s)) ->
     hget s o = Some ob -> chain_rec s (o_rec ob) rest ->
     exists s' o' ob',
-      follow fuel s o = (s', Ok o') /\ quiet s s' /\
+      follow fuel s o lk = (s', Ok (o', last rest lk)) /\ quiet s s' /\
       hget s' o' = Some ob' /\ r_ref (o_rec ob') = None /\ o_id ob' = last rest (o_id ob) /\
       (rest = [] -> o' = o /\ s' = s) /\
       (rest <> [] -> L s' (o_id ob') = Some (o_rec ob') /\
@@ -58,10 +61,10 @@ Proof. exact start_never_placeholder. Qed.
 
 (* the fuel Start gives, S supply, is never used up: ERefLoop is unreachable *)
 Theorem C05_fuel :
-  forall s o ob,
+  forall s o ob lk,
     plan s = [] -> cache_ok s -> nodup_ok s -> ref_wf s -> hget s o = Some ob ->
     L s (o_id ob) = Some (o_rec ob) ->
-    snd (follow (S (N.to_nat (supply s))) s o) <> Err ERefLoop.
+    snd (follow (S (N.to_nat (supply s))) s o lk) <> Err ERefLoop.
 Proof. exact follow_fuel_suffices. Qed.
 
 (* ref_wf holds initially, survives loads and flushes, and RegenerateID of a
